@@ -78,6 +78,10 @@ def gen_instance(rng, quick, family=None):
         kind = "random"
         vecs = [qgen.unit(qgen.int_vector(rng, d, cplx)) for _ in range(k)]
     probs = qgen.dyadic_probs(rng, k)
+    if k >= 3 and rng.integers(8) == 0:
+        z = int(rng.integers(k))          # "any prior": an exact zero entry
+        rest = qgen.dyadic_probs(rng, k - 1)
+        probs = rest[:z] + [0.0] + rest[z:]
     if family == "pair":
         probs = [0.5, 0.5]
     if form == "dm_mixed":
